@@ -366,8 +366,9 @@ func geojsonExec(c Case) Event {
 	keep := append([]byte(nil), b...)
 	_, _ = geom.XY{X: -7.25, Y: 3.5}.AsPoint().MarshalJSON()
 	_, _ = geom.XY{X: 1, Y: 2}.AsPoint().AsGeometry().MarshalJSON()
-	_, _ = g.MarshalJSON()
-	ev["stable"] = bytes.Equal(b, keep)
+	stable := bytes.Equal(b, keep)
+	b2, _ := g.MarshalJSON() // and the same call again gives the same bytes
+	ev["stable"] = stable && bytes.Equal(b2, keep)
 	b = keep
 	v, perr := parseGeneric(b)
 	ev["jsonvalid"] = perr == nil && json.Valid(b)
